@@ -10,6 +10,10 @@ SIZES = [0, 1, 125, 126, 127, 65535, 65536, 65537]
 
 
 def body(kind, n, salt=0):
+    if kind == TEXT and salt % 2 == 1 and n >= 3:
+        # every second message of a sequence starts with U+FEFF (a decoder that strips a byte-order mark would lose it)
+        rest = body(TEXT, n - 3, 0)
+        return b'\xef\xbb\xbf' + rest
     if kind == TEXT:
         return ('€' * (n // 3) + 'ab'[: n % 3]).encode('utf-8') if n % 3 != 2 else ('€' * (n // 3) + 'é').encode('utf-8')
     return bytes((i * 7 + salt + (i >> 8)) & 0xFF for i in range(n))
@@ -138,10 +142,10 @@ class C01(conncheck.ConnCheck):
             return control_message(item['control'])
         return message_frames(dict(item, salt=salt))
 
-    def run_seq(self, items, mode, res=None):
+    def run_seq(self, items, mode, res=None, base_salt=0):
         frames = []
         for i, it in enumerate(items):
-            frames += self.frames_of(it, salt=i * 13)
+            frames += self.frames_of(it, salt=i * 13 + base_salt)
         frames += TRAILER
         copies = []
 
@@ -208,9 +212,10 @@ class C01(conncheck.ConnCheck):
                     item = {'kind': job['kind'], 'n': n, 'form': job['form'], 'parts': parts, 'gaps': list(gaps)}
                     frames0 = self.frames_of(item)
                     for mode in self.modes_for(frames0):
-                        case = {'k': 'seq', 'items': [item], 'mode': mode}
-                        run, problems, frames = self.run_seq([item], mode)
-                        self.account(res, case, [item], mode, run, problems, frames)
+                        for bsalt in ((0, 1) if job['kind'] == 'text' and n >= 3 else (0,)):
+                            case = {'k': 'seq', 'items': [item], 'mode': mode, 'salt': bsalt}
+                            run, problems, frames = self.run_seq([item], mode, base_salt=bsalt)
+                            self.account(res, case, [item], mode, run, problems, frames)
             res.samples.append({'message': item, 'frames': [f.brief() for f in frames], 'events': run.names})
         else:
             menu = self.reduced_menu()
@@ -230,7 +235,7 @@ class C01(conncheck.ConnCheck):
     def replay(self, case, verbose=True):
         if 'cfg' in case:
             return super(C01, self).replay(case, verbose)
-        run, problems, frames = self.run_seq(case['items'], case['mode'])
+        run, problems, frames = self.run_seq(case['items'], case['mode'], base_salt=case.get('salt', 0))
         if verbose:
             print('messages:', case['items'])
             print('frames:', [f.brief() for f in frames], 'delivery:', case['mode'])
